@@ -270,7 +270,14 @@ def rule_sighash_commits(ctx: Ctx, rep: Report) -> None:
     rep.floor("C10.sighash_commits", 25)
 
 
+def rule_params_forwarded_(ctx: Ctx, rep: Report) -> None:
+    """C10.params_forwarded: a parameter is handed on to callees that have a parameter of the same name (see sigcommon.rule_params_forwarded)."""
+    from rules.sigcommon import rule_params_forwarded
+    rule_params_forwarded(ctx, rep, "C10.params_forwarded", ('btclib.psbt_signer', 'btclib.bip322', 'btclib.tx_builder'), 40)
+
+
 RULES = [
+    ("C10.params_forwarded", rule_params_forwarded_),
     ("C10.sighash_commits", rule_sighash_commits),
     ("C10.params_used", rule_params_used),
     ("C10.bip322_first_prevout", rule_bip322_first_prevout),
@@ -282,6 +289,8 @@ RULES = [
 ]
 
 CONTROLS = [
+    {"rule": "C10.params_forwarded", "name": "the key-path signer does not hand the merkle root on", "module": "btclib.psbt_signer",
+     "edit": lambda ctx: M.sub_expr(ctx, "btclib.psbt_signer.SoftwareSigner.sign_schnorr", M.is_text("output_prvkey_from_merkle_root(prv_key, merkle_root)"), "output_prvkey_from_merkle_root(prv_key)")},
     {"rule": "C10.sighash_commits", "name": "SINGLE|ANYONECANPAY commits to no output", "module": "btclib.script.sig_hash",
      "edit": lambda ctx: M.sub_expr(ctx, "btclib.script.sig_hash.taproot", lambda n: isinstance(n, ast.If) and norm(n.test) == "hashtype & 3 == SINGLE" and "sha_single_output" in norm(n) or (isinstance(n, ast.Compare) and norm(n) == "hashtype & 3 == SINGLE"),
                                     "hashtype == SINGLE", 1)},
